@@ -54,6 +54,17 @@ func runC14(c *core.Check) {
 		r.ConstSubst = map[string]string{"Alphabet": "Clusters"}
 		streamTLC(c, r, func(st core.State) { c14.Handle(c, st) })
 	}
+	// heredocs: an introducer line followed by every short string over the marker letter, blanks, Unicode
+	// white space that is not a blank, line ends and template introducers (closing lines with neighbours)
+	{
+		ln := "4"
+		if c.Tier == "thorough" {
+			ln = "5"
+		}
+		r := core.TLCRun{Module: "MC_C14", Consts: map[string]string{"MaxN": ln, "StartKind": "\"initial\""}, Timeout: minutes(30)}
+		r.ConstSubst = map[string]string{"Alphabet": "Heredocs"}
+		streamTLC(c, r, func(st core.State) { c14.Handle(c, st) })
+	}
 	// range fidelity on grammar-derived sources
 	e1c := map[string]string{"MaxD": "1", "Level2": "\"core\""}
 	if c.Tier == "thorough" {
